@@ -16,7 +16,7 @@ import (
 func init() {
 	core.Register(&core.Prop{
 		ID: "C02",
-		Rule: "grid phase: case = one polygonal geometry (1-2 polygons x 1-3 rings of 0-7 unfiltered vertices on the half-integer grid {0,.5,..,4}^2: self-intersecting, collinear, repeated-vertex, clockwise, unclosed and closed rings all occur; also *Bounds) and all 81 grid points judged by an exact integer/rational crossing-number + on-segment oracle, plus MultiPoint/LineString/MultiLineString/Polygon receivers; " +
+		Rule: "grid phase: case = one polygonal geometry (1-2 polygons x 1-3 rings of 0-7 unfiltered vertices on the half-integer grid {0,.5,..,4}^2: self-intersecting, collinear, repeated-vertex, clockwise, unclosed and closed rings all occur; also *Bounds) and all 81 grid points judged by an exact integer/rational crossing-number + on-segment oracle, plus MultiPoint/LineString/MultiLineString/Polygon receivers (random vertices, and each member polygon of the polygonal itself, same or copied storage); " +
 			"float phase: star and random-walk float polygons with margin points judged by the same rule in exact rational arithmetic; enumerate phase (thorough): every ordered triangle and quadrilateral on the 4x4 integer grid, closed and unclosed, against all 49 half-grid points; " +
 			"an evaluation is one (point, geometry) classification; non-trivial = geometry for which at least one OnEdge and one Inside answer were produced; distinct by content hash",
 		Assumptions: []string{"a ring counts when it stores >= 3 vertices (closing vertex included), as the implementation documents; closed rings with exactly 3 stored vertices are not generated", "float phase judges only points with margin >= 1e-9*diameter from every edge"},
@@ -43,7 +43,7 @@ func init() {
 		Run: run,
 		Floors: func(t string) map[string]int64 {
 			return map[string]int64{"pt.on_vertex": 1000, "pt.on_closing_segment_of_unclosed_ring": 200, "pt.on_horizontal_edge": 500, "pt.ray_through_vertex": 1000,
-				"pt.inside_two_members": 100, "answer.inside": 1000, "answer.outside": 1000, "answer.onedge": 1000, "recv.outside": 200, "recv.not_outside": 200, "float.judged": 1000, "float.ray_grazes_one_ulp_edge": 1000, "float.extreme_scale": 300, "arg.*Bounds": 100}
+				"pt.inside_two_members": 100, "answer.inside": 1000, "answer.outside": 1000, "answer.onedge": 1000, "recv.outside": 200, "recv.not_outside": 200, "recv.self.outside": 100, "recv.self.not_outside": 100, "float.judged": 1000, "float.ray_grazes_one_ulp_edge": 1000, "float.extreme_scale": 300, "arg.*Bounds": 100}
 		},
 		Exhaustive: func(t string) bool { return false },
 	})
@@ -242,6 +242,43 @@ func runGrid(c *core.Ctx) {
 // Outside exactly when at least one vertex is Outside.
 func receivers(c *core.Ctx, pgl geom.Polygonal, polys []geom.Polygon, detail map[string]interface{}) {
 	r := c.R
+	// the polygonal's own polygons as receivers (identical geometry, same or copied storage):
+	// rings of fewer than three vertices are not boundaries, so their vertices may be Outside
+	for _, pg := range polys {
+		anyOut, nv := false, 0
+		for _, ring := range pg {
+			for _, p := range ring {
+				nv++
+				if oracle(p, polys) == exact.Outside {
+					anyOut = true
+				}
+			}
+		}
+		if nv == 0 {
+			continue
+		}
+		var recv geom.Polygon = pg
+		if r.Bool() {
+			recv = gen.DeepCopy(pg).(geom.Polygon)
+		}
+		c.Eval()
+		var got geom.WithinStatus
+		d := map[string]interface{}{"receiver": gen.Dump(recv)}
+		for kk, v := range detail {
+			d[kk] = v
+		}
+		if c.Guard("Polygon.Within", d, func() { got = recv.Within(pgl) }) {
+			continue
+		}
+		if anyOut {
+			c.Count("recv.self.outside")
+		} else {
+			c.Count("recv.self.not_outside")
+		}
+		if (got == geom.Outside) != anyOut {
+			c.Violate("receiver:Polygon:self", fmt.Sprintf("Polygon.Within(a polygonal containing that very polygon) = %s but 'some vertex is Outside' is %v", statusName(conv(got)), anyOut), d)
+		}
+	}
 	for k := 0; k < 4; k++ {
 		n := r.IntRange(1, 5)
 		pts := make([]geom.Point, n)
